@@ -16,8 +16,12 @@ def build(ctx):
     sm.replace("use crate::tracing::debug;\n", "", 'R3', required=False)
     sm.sub(r'(?<![:\w])debug!\(', 'crate::tracing::debug!(', 'R3')
     sm.enum_loop("for (i, delta) in deltas.iter().enumerate() {", "let mut i: usize = 0;\n    for delta in deltas.iter() {", 'i')
+    sm.replace("yearly_cap_gains.keys().cloned().collect();", "hole_i32_keys(&yearly_cap_gains);", 'H')
+    sm.replace("let gain_or_loss = yearly_cap_gains[&year];", "let gain_or_loss = *yearly_cap_gains.get(&year).unwrap();", 'R15')
+    sm.replace("let tx = &latest_year_delta[&year].tx;", "let tx = &latest_year_delta.get(&year).unwrap().tx;", 'R15')
     sm.only(['type Warning', 'struct SummaryRanges', 'const GET_SUMMARY_RANGE_DELTA_INDICIES_WARN',
-             'fn get_summary_range_delta_indicies', 'const SHARE_BALANCE_ZERO_WARNING', 'fn make_simple_summary_txs'],
+             'fn get_summary_range_delta_indicies', 'const SHARE_BALANCE_ZERO_WARNING', 'fn make_simple_summary_txs',
+             'fn make_annual_gains_summary_txs'],
             why='make_summary_txs / annual-gains variant / aggregate use extend, iter_mut and HashSet chains not brought into the dialect')
     stubs = open(os.path.join(os.path.dirname(os.path.dirname(os.path.abspath(__file__))), 'shim', 'util_stubs.rs')).read()
     return (shim('base', 'std') + "verus! {\n"
